@@ -2,6 +2,7 @@ import Spine.Update
 import Spine.Store
 import Spine.StoreF
 import Spine.SpecKV
+import Spine.C02Tables
 /-! Line-protocol driver of the update engine model (`Spine.updateList`, `Spine.updateStore`) and of the
     Lean twin of the SPEC (`Spine.SpecKV`).
 
@@ -11,10 +12,19 @@ import Spine.SpecKV
     store r=… p=… old=… new=… fp=… fd=…   → ok=<0|1> store=<items> | panic <site>     (spine.FunctionData.UpdateData)
     kv old=<items> new=<items> fp=<filter> fd=<filter>
         → na <reason> | kv <items>          (Spec.KV.apply on well-formed input, as a key-ordered list)
-    cfg <mergeStrict> <selNilPanics> <emptySelPanics> <inplaceAltersFlag>  (0|1 each) → cfg-ok
+    cfg <mergeStrict> <selNilPanics> <emptySelPanics> <inplaceAltersFlag> [<deleteStrict>]  (0|1 each) → cfg-ok
         selects the member of the engine family (`Spine.UpdateF`); default = all 1 = the code as written
         (`updateListF_asWritten`); the harness probes the flags on the tree under test
     reset → reset (forgets the shape, keeps the member)
+    selfacts <structDeep>  (0|1) → selfacts-ok
+        how `SelectorMatch` of the tree compares struct-typed selector values (1 = deeply); together with
+        `selNilPanics` of `cfg` this is `Tables.SelFacts`; default 0 = the code as written. Send `cfg` and `selfacts`
+        BEFORE `shape`: a typed shape line is resolved with the flags known when it arrives.
+    shape n=… keys=… flag=… selidx=<i|-,…|.> seltypes=<t,…|.> eln=… elmap=…   → shape-ok     (typed form)
+        selidx = item field of the same name per selector field, seltypes = ignored|scalar|othertype|nonptr|struct|
+        structnc per selector field (type facts of the data model); the model's selMap is
+        `Tables.selMapFor ⟨selNilPanics, structDeep⟩ n selidx seltypes`.
+    selmap? → selmap <i|-,…|.>   the model's selMap of the current shape
 
     items: `.` = empty list, `;` between items, `,` between fields, `-` = absent field.
     filter: `N` = nil, `E` = present without selector and elements, `F:<sel|N>:<el|N>`. -/
@@ -62,6 +72,33 @@ def parseShape : List String → Option Shape
     pure { n := n, keys := keys, flag := parseOpt flag, selMap := parseIdxList selmap, elN := eln, elMap := parseIdxList elmap }
   | _ => none
 
+def parseSelType (s : String) : Option Tables.SelType :=
+  match s with
+  | "ignored" => some .ignored | "scalar" => some .scalar | "othertype" => some .othertype
+  | "nonptr" => some .nonptr | "struct" => some .struct | "structnc" => some .structnc
+  | _ => none
+
+def parseSelTypes (s : String) : Option (List Tables.SelType) :=
+  if s == "." then some [] else (s.splitOn ",").mapM parseSelType
+
+/-- the typed shape line: selector fields by type facts, resolved to the model's selMap with the probed facts -/
+def parseShapeT (f : Tables.SelFacts) : List String → Option Shape
+  | [n, keys, flag, selidx, seltypes, eln, elmap] => do
+    let n ← (← arg "n" n).toNat?
+    let keys ← parseKeys (← arg "keys" keys)
+    let flag ← arg "flag" flag
+    let selidx ← arg "selidx" selidx
+    let tys ← parseSelTypes (← arg "seltypes" seltypes)
+    let eln ← (← arg "eln" eln).toNat?
+    let elmap ← arg "elmap" elmap
+    if (parseIdxList selidx).length != tys.length then none else
+    pure { n := n, keys := keys, flag := parseOpt flag, selMap := Tables.selMapFor f n (parseIdxList selidx) tys,
+           elN := eln, elMap := parseIdxList elmap }
+  | _ => none
+
+/-- `structDeep` of `Tables.SelFacts` (op `selfacts`) -/
+initialize updStructDeep : IO.Ref Bool ← IO.mkRef false
+
 def doUpd (c : UCfg) (sh : Shape) : List String → Option String
   | [r, p, old, nw, fp, fd] => do
     let r ← arg "r" r; let p ← arg "p" p
@@ -105,10 +142,23 @@ partial def loop (inp out : IO.FS.Stream) (c : UCfg) (sh : Option Shape) : IO Un
     if [a, b, d, e].all (fun x => x == "0" || x == "1") then
       out.putStrLn "cfg-ok"; out.flush
       return ← loop inp out { mergeStrict := a == "1", selNilPanics := b == "1", emptySelPanics := d == "1", inplaceAltersFlag := e == "1" } sh
+  if let ["cfg", a, b, d, e, g] := toks then
+    if [a, b, d, e, g].all (fun x => x == "0" || x == "1") then
+      out.putStrLn "cfg-ok"; out.flush
+      return ← loop inp out { mergeStrict := a == "1", selNilPanics := b == "1", emptySelPanics := d == "1", inplaceAltersFlag := e == "1", deleteStrict := g == "1" } sh
+  if let ["selfacts", x] := toks then
+    if x == "0" || x == "1" then
+      updStructDeep.set (x == "1")
+      out.putStrLn "selfacts-ok"; out.flush
+      return ← loop inp out c sh
+  let facts : Tables.SelFacts := ⟨c.selNilPanics, ← updStructDeep.get⟩
   let (sh', ans) : Option Shape × String := match toks with
-    | "shape" :: rest => match parseShape rest with
+    | "shape" :: rest => match (parseShape rest).orElse (fun _ => parseShapeT facts rest) with
       | some s => (some s, "shape-ok")
       | none => (sh, "bad-op")
+    | ["selmap?"] => match sh with
+      | none => (sh, "no-shape")
+      | some s => (sh, "selmap " ++ (if s.selMap.isEmpty then "." else ",".intercalate (s.selMap.map showOpt)))
     | "upd" :: rest => match sh with
       | none => (sh, "no-shape")
       | some s => (sh, (doUpd c s rest).getD "bad-op")
